@@ -159,8 +159,99 @@ pub fn replay(path: &str) -> i32 {
         }
     }
 }
+/// SpecKit self-validation: the checker must flag exactly the class of every injected damage
+/// (so that it is not a rubber stamp) and accept every builder image. Returns (damages, failures).
+pub fn speckit_selftest() -> (u64, Vec<String>) {
+    use crate::spec::*;
+    let mut n = 0u64;
+    let mut fails = vec![];
+    for (cb, order) in [(9u32, 6u32), (10, 4), (12, 2), (16, 4)] {
+        let mut s = ImageSpec::new(cb, order, 40 << cb);
+        s.kinds = vec![GKind::Unalloc; 40];
+        for c in [0usize, 1, 2, 7] {
+            s.kinds[c] = GKind::Data;
+        }
+        s.kinds[3] = GKind::Zero;
+        s.kinds[4] = GKind::ZeroPrealloc;
+        s.kinds[5] = GKind::Compressed;
+        let b = build_image(&s);
+        let rep = check_image(&b.bytes);
+        if !rep.strict_ok() {
+            fails.push(format!("builder image c{} r{} rejected: {:?}", cb, order, rep.first_problem(true)));
+            continue;
+        }
+        let h = rep.header.clone();
+        let (cs, _, rbe) = geometry(cb, order);
+        let l1_off = h.l1_off as usize;
+        let l2_off = (u64::from_be_bytes(b.bytes[l1_off..l1_off + 8].try_into().unwrap()) & 0x00ff_ffff_ffff_fe00) as usize;
+        let rb_off = (u64::from_be_bytes(b.bytes[h.rt_off as usize..h.rt_off as usize + 8].try_into().unwrap()) & !0x1ff) as usize;
+        let mut expect = |name: &str, img: Vec<u8>, want: &dyn Fn(&Report) -> bool| {
+            n += 1;
+            let r = check_image(&img);
+            if !want(&r) || r.strict_ok() {
+                fails.push(format!("c{} r{} damage '{}' not reported as such (first problem {:?})", cb, order, name, r.first_problem(true)));
+            }
+        };
+        // every referenced cluster: refcount -1 => under, +1 => leak (where the width allows)
+        for (c, owners) in rep.refs.iter() {
+            let stored = owners.len() as u64;
+            let mut img = b.bytes.clone();
+            rc_set(&mut img[rb_off..rb_off + cs], order, (*c as usize) % rbe, stored - 1);
+            let cc = *c;
+            expect("refcount-1", img, &move |r| r.under.iter().any(|u| u.0 == cc));
+            if stored + 1 <= rc_max(order) {
+                let mut img = b.bytes.clone();
+                rc_set(&mut img[rb_off..rb_off + cs], order, (*c as usize) % rbe, stored + 1);
+                expect("refcount+1", img, &move |r| r.leaked.iter().any(|u| u.0 == cc));
+            }
+        }
+        // every standard L2 entry: duplicate mapping, misaligned, reserved bit, missing COPIED
+        let first_data = b.truth[0].host_off;
+        for g in [1usize, 2, 7] {
+            let eo = l2_off + g * 8;
+            let e = u64::from_be_bytes(b.bytes[eo..eo + 8].try_into().unwrap());
+            let put = |v: u64| {
+                let mut img = b.bytes.clone();
+                img[eo..eo + 8].copy_from_slice(&v.to_be_bytes());
+                img
+            };
+            expect("duplicate-mapping", put((1u64 << 63) | first_data), &|r| !r.double_ref.is_empty());
+            if cs > 512 {
+                expect("misaligned", put(e + 512), &|r| !r.bad_entry.is_empty());
+            }
+            expect("reserved-bit", put(e | 0x4), &|r| !r.bad_entry.is_empty());
+            expect("missing-copied", put(e & !(1u64 << 63)), &|r| !r.copied.is_empty());
+        }
+        // mapping beyond the virtual size
+        {
+            let eo = l2_off + 45 * 8;
+            if 45 < cs / 8 {
+                let mut img = b.bytes.clone();
+                img[eo..eo + 8].copy_from_slice(&((1u64 << 63) | first_data).to_be_bytes());
+                expect("beyond-size", img, &|r| !r.beyond_size.is_empty());
+            }
+        }
+        // L1 entry pointing into data: table with invalid entries
+        {
+            let mut img = b.bytes.clone();
+            img[l1_off..l1_off + 8].copy_from_slice(&((1u64 << 63) | first_data).to_be_bytes());
+            expect("l1-points-at-data", img, &|r| !r.uninit_table.is_empty());
+        }
+    }
+    (n, fails)
+}
+
 pub fn selftest() -> i32 {
-    0
+    let (n, fails) = speckit_selftest();
+    println!("SpecKit self-test: {} injected damages, {} not reported correctly", n, fails.len());
+    for f in fails.iter().take(10) {
+        println!("  {}", f);
+    }
+    if fails.is_empty() {
+        0
+    } else {
+        2
+    }
 }
 
 struct SeqPlan {
@@ -192,12 +283,23 @@ pub fn stats_json(name: &str, st: &BfsStats) -> Value {
         "pruned_states": st.pruned,
         "per_level": st.per_level.iter().map(|(d,t,n)| json!({"depth":d,"transitions":t,"new_states":n})).collect::<Vec<_>>(),
         "distinct_outcomes": st.distinct_outcomes,
+        "determinism_replays": st.replayed,
+        "nondeterministic": st.nondeterministic,
     })
 }
 
 fn seq_family(prop: &str) -> i32 {
     let run = Run::new(prop, "model_checking");
     let thorough = run.thorough();
+    let mut selftest_json = json!(null);
+    if prop == "C03" {
+        let (n, fails) = speckit_selftest();
+        if !fails.is_empty() {
+            println!("machinery failure: SpecKit checker self-test failed: {:?}", &fails[..fails.len().min(5)]);
+            return 2;
+        }
+        selftest_json = json!({"injected_damages_all_reported": n});
+    }
     let plans: Vec<SeqPlan> = if !thorough {
         vec![
             SeqPlan { geo: images::G9, images: vec!["libfmt", "data"], cfgs: vec!["small"], depth: 3, secs: 10 },
@@ -325,6 +427,7 @@ fn seq_family(prop: &str) -> i32 {
         "evaluations": trans,
         "distinct_nontrivial": outcomes,
         "concurrent_part": sched_json,
+        "checker_selftest": selftest_json,
         "rule": "explicit-state BFS over operation histories on the real code (every transition = one replay of the history on a fresh simulated host); states merged by digest of files + in-RAM metadata + reference disk; distinct_nontrivial = number of distinct (operation kind, result, data returned) outcomes observed",
         "exhaustive": all_complete,
         "scenarios": scen,
@@ -496,6 +599,21 @@ pub fn sched_explore(run: &Run, want: &[&str], scenarios: &[SchedScenario], boun
             // iterate the deviation bound; each round re-explores from scratch (cheap) so the
             // first counterexample has the fewest deviations
             let mut total = crate::sched::ExploreStats::default();
+            // determinism: the default schedule and one deviating schedule, twice each
+            for prefix in [vec![], vec![1usize]] {
+                let a = sc.execute(&prefix).map(|x| (x.choices.clone(), x.steps, lin::judge(sc, x, want).fingerprint));
+                let b2 = sc.execute(&prefix).map(|x| (x.choices.clone(), x.steps, lin::judge(sc, x, want).fingerprint));
+                match (a, b2) {
+                    (Ok(a), Ok(b2)) => {
+                        if a != b2 {
+                            return (sc.describe(), Err(format!("replaying schedule {:?} twice gave different observations", prefix)), viols);
+                        }
+                    }
+                    // an out-of-range choice (no second action at the first choice point) is fine for [1]
+                    (Err(_), Err(_)) if !prefix.is_empty() => {}
+                    (Err(e), _) | (_, Err(e)) => return (sc.describe(), Err(e), viols),
+                }
+            }
             for b in 0..=bound {
                 let r = explore(sc, b, per_scn_execs, deadline, |sc, x| {
                     let o = lin::judge(sc, x, want);
@@ -585,6 +703,15 @@ pub fn sched_family(prop: &str) -> i32 {
     if thorough {
         scenarios.extend(sched_scenarios(&images::G9, &["empty", "XYflushed"], &["small"], true));
         scenarios.extend(sched_scenarios(&images::G12, &["empty", "Xdirty"], &["small"], true));
+        // the curated scenarios again with "complete a request" and "poll its owner" as two
+        // separate actions: validates the fused reduction (any violation found only here would
+        // show the reduction hides behaviours)
+        let mut unfused = sched_scenarios(&g, &[], &["small"], false);
+        for s in unfused.iter_mut() {
+            s.fused = false;
+            s.name = format!("{} [completion and poll split]", s.name);
+        }
+        scenarios.extend(unfused);
     }
     let want: Vec<&str> = match prop {
         "C06" => vec!["C06", "C07"],
@@ -681,7 +808,28 @@ pub fn crash_family(prop: &str) -> i32 {
         }
     }
     run.add_all(viol);
+    // crash states of concurrent histories (C04 quantifies over schedules too)
+    let mut conc = json!(null);
+    if prop == "C04" {
+        let g = images::G10;
+        let mut sc = sched_scenarios(&g, &["XYflushed", "Xdirty"], &["small"], true);
+        sc.retain(|s| s.tasks.iter().flatten().any(|o| matches!(o, Op::Write { .. } | Op::Discard { .. })));
+        let (b, per, secs) = if thorough { (2, 100_000, 600) } else { (1, 2_000, 20) };
+        match sched_explore(&run, &["C04"], &sc, b, per, secs) {
+            Ok(sum) => {
+                let n = crate::lin::CRASH_IMAGES.load(std::sync::atomic::Ordering::Relaxed);
+                images_n += n;
+                distinct += n;
+                conc = json!({"scenarios": sum.total, "executions": sum.execs, "distinct_crash_images_checked": n, "deviation_bound_completed": sum.min_bound, "deviation_bound_target": b, "samples": sum.samples});
+            }
+            Err(e) => {
+                println!("machinery failure: {}", e);
+                return 2;
+            }
+        }
+    }
     let cov = json!({
+        "concurrent_part": conc,
         "evaluations": images_n,
         "distinct_nontrivial": distinct,
         "rule": "for every transition of the explicit-state BFS over operation histories: the backend request log is cut at completed fsyncs; for every window touched by the transition every crash image = durable image x per-512-byte-block choice among {durable value, value after each un-synced request} is enumerated (complete product when <= 2^14 images, else all images within 3 block deviations of both extremes); distinct_nontrivial = images distinct by content (and sync point for C05) that were actually judged by the oracle",
